@@ -21,6 +21,7 @@ func init() {
 			"the probe refuses unless the current status is `not started`; the status getter turns only a timeout of the socket request into an error (refusal), tests the request's own error for that, and maps every other failure to `not started` (C16.probe-table)",
 			"a live agent never answers `not started`: the /status handler overwrites the status with running before encoding (C08.live-is-running, shared)",
 			"between the probe and the bind there is an exclusive claim (C16.atomic-claim) — violated today: the server unlinks the socket path unconditionally before listening; known finding F19",
+			"the agent's socket handler produces JSON (json.Marshal / Encoder.Encode in its closure inside the package) only from a model.Status: an error answer never decodes as a status (C16.socket-json-is-status)",
 		},
 		NotDec: []string{"the instants of the first run's life at which the second start arrives", "two starts racing between probe and bind (that is exactly F19)"},
 	})
@@ -35,6 +36,7 @@ func runC16(e *Env) {
 	c16AddressFunction(e)
 	c16ClientErrors(e, "C16.client-errors-are-transport")
 	c16AtomicClaim(e)
+	c16SocketJSONIsStatus(e, "C16.socket-json-is-status")
 }
 
 func c16ProbeFirst(e *Env) {
